@@ -6,6 +6,8 @@
 //   kind 4  AnamEmpirical    normal-score fit, forward / backward
 //   kind 5  Rotation         setAngles / setMatrixDirect, rotateDirect then rotateInverse
 //   kind 6  hermiteCondExpElement(y, s, psi)   (run under AddressSanitizer by the check)
+//   kind 9  AnamDiscreteDD fit of a fresh object (no crash), AnamDiscreteIR fit and factors (run with the ASan batch)
+//   kind 8  AnamHermite::fitFromArray: coefficients, the oracle arrays (classes, quantiles, cdf, pdf), re-fit of a used object
 //   kind 7  AnamEmpirical / AnamHermite fit of degenerate data (constant, single, all undefined), under AddressSanitizer
 #include "sx.hpp"
 #include <sstream>
@@ -14,7 +16,10 @@
 #include "Stats/PCA.hpp"
 #include "Anamorphosis/AnamHermite.hpp"
 #include "Anamorphosis/AnamEmpirical.hpp"
+#include "Anamorphosis/AnamDiscreteDD.hpp"
+#include "Anamorphosis/AnamDiscreteIR.hpp"
 #include "Geometry/Rotation.hpp"
+#include "Geometry/GeometryHelper.hpp"
 #undef private
 #undef protected
 #include "Polynomials/Hermite.hpp"
@@ -214,7 +219,19 @@ static std::string runRotation(const Sx& c) {
     rot.rotateDirect(in, d); rot.rotateInverse(d, b);
     o << (first ? "" : " ") << "(" << vecStr(d) << " " << vecStr(b) << ")"; first = false;
   }
-  o << "))";
+  o << ")";
+  // (cos, sin) of the angles as the library computes them, the angles held by the object, and the matrix rebuilt from those angles
+  o << " (";
+  if (mode == 0) {
+    VectorDouble ang = c[3].vd(); ang.resize(ndim == 2 ? 1 : ndim, 0.);
+    for (size_t k = 0; k < ang.size(); k++) { double ca, sa; GH::rotationGetSinCos(ang[k], &ca, &sa); o << (k ? " " : "") << "(" << sx_d(ca) << " " << sx_d(sa) << ")"; }
+  }
+  o << ") " << vecStr(rot.getAngles());
+  // matrix -> angles (rotationGetAnglesInPlace through setMatrixDirect) -> matrix
+  Rotation r2(ndim), r3(ndim);
+  int rc2 = r2.setMatrixDirect(rot.getMatrixDirect());
+  if (rc2 == 0) rc2 = r3.setAngles(r2.getAngles());
+  o << " " << rc2 << " " << matStr(r3.getMatrixDirect()) << ")";
   return o.str();
 }
 
@@ -226,6 +243,46 @@ static std::string run(const Sx& c) {
   if (kind == 3) return runNormalScore(c);
   if (kind == 4) return runAnamEmpirical(c);
   if (kind == 5) return runRotation(c);
+  if (kind == 9) {   // (9 which data zcuts): which 0 = AnamDiscreteDD fit of a fresh object, 1 = AnamDiscreteIR fit + factors of every value
+    int which = (int) c[1].i(); VectorDouble data = c[2].vd(TEST), zc = c[3].vd();
+    std::ostringstream o; int rc = -9, threw = 0;
+    if (which == 0) {
+      AnamDiscreteDD dd(1., 0.); dd.setZCut(zc);
+      try { rc = dd.fitFromArray(data); } catch (const std::exception& e) { threw = 1; }
+      o << "(" << rc << " " << threw << ")";
+    } else {
+      AnamDiscreteIR ir(0.); ir.setZCut(zc);
+      try { rc = ir.fitFromArray(data); } catch (const std::exception& e) { threw = 1; }
+      o << "(" << rc << " " << threw << " (";
+      VectorInt ifacs; for (int k = 1; k <= (int) zc.size(); k++) ifacs.push_back(k);
+      if (rc == 0 && !threw) for (size_t i = 0; i < data.size(); i++) { if (FFFF(data[i])) { o << (i ? " " : "") << "()"; continue; } o << (i ? " " : "") << vecStr(ir.z2factor(data[i], ifacs)); }
+      o << "))";
+    }
+    return o.str();
+  }
+  if (kind == 8) {   // (8 nbpoly data): AnamHermite::fitFromArray, the oracle arrays it uses, and a re-fit of an object already fitted on other data
+    int nb = (int) c[1].i(); VectorDouble data = c[2].vd(TEST);
+    AnamHermite a(nb); int rc = -9;
+    try { rc = a.fitFromArray(data); } catch (const std::exception& e) { rc = -2; }
+    std::ostringstream o; o << "(" << rc;
+    if (rc != 0) { o << ")"; return o.str(); }
+    int nech = (int) data.size();
+    VectorDouble zs(nech + 2), ys(nech + 2);
+    int ncl = AnamHermite::_data_sort(nech, data, VectorDouble(), zs, ys);
+    VectorDouble zc(ncl), yc(ncl), Gc(ncl), g(ncl), sq(nb);
+    for (int i = 0; i < ncl; i++) { zc[i] = zs[i]; yc[i] = ys[i]; Gc[i] = law_cdf_gaussian(ys[i]); g[i] = law_df_gaussian(ys[i]); }
+    for (int i = 0; i < nb; i++) sq[i] = sqrt((double) i);
+    o << " " << vecStr(a.getPsiHns()) << " " << vecStr(zc) << " " << vecStr(yc) << " " << vecStr(Gc) << " " << vecStr(g) << " " << vecStr(sq);
+    VectorDouble bnd = {a.getAzmin(), a.getAzmax(), a.getAymin(), a.getAymax(), a.getPzmin(), a.getPzmax(), a.getPymin(), a.getPymax()};
+    o << " " << vecStr(bnd);
+    AnamHermite b(nb);
+    VectorDouble other; for (int i = 0; i < nech; i++) if (!FFFF(data[i])) other.push_back(3. * data[nech - 1 - i] * (FFFF(data[nech - 1 - i]) ? 0. : 1.) + i);
+    int r1 = -9, r2 = -9;
+    try { r1 = b.fitFromArray(other); r2 = b.fitFromArray(data); } catch (const std::exception& e) { r2 = -2; }
+    VectorDouble bnd2 = {b.getAzmin(), b.getAzmax(), b.getAymin(), b.getAymax(), b.getPzmin(), b.getPzmax(), b.getPymin(), b.getPymax()};
+    o << " " << r2 << " " << vecStr(b.getPsiHns()) << " " << vecStr(bnd2) << ")";
+    return o.str();
+  }
   if (kind == 7) {   // (7 which nbpoly data): fit of degenerate data; which 0 = AnamEmpirical, 1 = AnamHermite. Returns (rc threw)
     int which = (int) c[1].i(), nb = (int) c[2].i(); VectorDouble data = c[3].vd(TEST); int rc = -9, threw = 0;
     try {
